@@ -439,6 +439,15 @@ C18Marks(r) ==
    \cup (IF \E s \in Scens(r) : \E p \in DOMAIN r.end.errmarks[s] :
               LastAtt(r, s) = 1 /\ p \in DOMAIN r.end.step_status[s] /\ r.end.step_status[s][p] \notin FailedOrError /\ r.end.errmarks[s][p] # <<>>
          THEN {"C18.pass_silent"} ELSE {})
+\* log records and the user's own root handler: with log capture and --logging-clear-handlers nothing a step logs reaches it;
+\* with log capture off every record of WARNING or above passes straight through to it
+C18UserLog(r) ==
+   LET seen == {m \in SetOf(r.end.user_log) : m.t \in {"D", "L", "G"}}
+       calledPairs == {sp \in r.x.called : sp[2] # 0}
+   IN
+   (IF r.cfg.cap_log /\ r.cfg.logclear /\ seen # {} THEN {"C18.no_leak"} ELSE {})
+   \cup (IF Ran(r) /\ ~r.cfg.cap_log /\ ~({[t |-> t, el |-> sp[1], pos |-> sp[2]] : t \in {"L", "G"}, sp \in calledPairs} \subseteq seen)
+         THEN {"C18.passthrough"} ELSE {})
 \* logging: the user's own root handler and the root level are the same at every hook outside steps (driver probes)
 C18Log(r) ==
    LET hs == {i \in Ix(r) : Ev(r, i).k = "hook" /\ ~IsStepHook(Ev(r, i))}
@@ -446,18 +455,20 @@ C18Log(r) ==
        nextOutside(i) == LET c == {j \in hs : j > i /\ Ev(r, j).el # Ev(r, i).el} IN
                          IF c = {} THEN 0 ELSE CHOOSE j \in c : \A k \in c : j <= k
    IN
-   (IF \E i, j \in hs : ~Ev(r, i).mine \/ Ev(r, i).lvl # Ev(r, j).lvl THEN {"C18.logging_restored"} ELSE {})
+   \* (with --logging-clear-handlers the user's handler is detached while a scenario captures: judged at the hooks outside scenarios)
+   (IF \E i, j \in hs : (~Ev(r, i).mine /\ (~r.cfg.logclear \/ Ev(r, i).el = 0 \/ r.prog[Ev(r, i).el].kind # "scenario"))
+                        \/ Ev(r, i).lvl # Ev(r, j).lvl THEN {"C18.logging_restored"} ELSE {})
    \* after a scenario the root logger carries no more foreign (capture) handlers than before it
    \cup (IF \E i \in hs : Ev(r, i).name = "before_scenario" /\ nextOutside(i) # 0
                           /\ Ev(r, nextOutside(i)).nfor > Ev(r, i).nfor
          THEN {"C18.logging_restored"} ELSE {})
 C13r(r) == C13rVis(r) \cup C13rCl(r)
-ClausesX(r) == C01(r) \cup C02(r) \cup C03(r) \cup C09(r) \cup C12(r) \cup C13r(r) \cup C18(r) \cup C18Marks(r)
+ClausesX(r) == C01(r) \cup C02(r) \cup C03(r) \cup C09(r) \cup C12(r) \cup C13r(r) \cup C18(r) \cup C18Marks(r) \cup C18UserLog(r)
 Clauses(r0) == LET r == Enrich(r0) IN ClausesX(r) \cup C12Pair(r) \cup C18Log(r0)
 PairClauses(r0) == C12Pair(Enrich(r0))
 ExitClauses(r0) == C01Exit([Enrich(r0) EXCEPT !.base = r0.base] @@ [exit |-> r0.exit])
 \* on behaviours of the specification itself (no probes of the driver's context instrumentation)
-ClausesMCX(r) == C01(r) \cup C02(r) \cup C03(r) \cup C09(r) \cup C12(r) \cup C13rCl(r) \cup C18(r) \cup C18Marks(r)
+ClausesMCX(r) == C01(r) \cup C02(r) \cup C03(r) \cup C09(r) \cup C12(r) \cup C13rCl(r) \cup C18(r) \cup C18Marks(r) \cup C18UserLog(r)
 ClausesMC(r0) == ClausesMCX(Enrich(r0))
 \* defect families of the code as it is (DESIGN §8): the specification models them, the property layer rejects them
 KnownFamilies == {"C03.rollup/skip_by_step", "C03.rollup/order"}
